@@ -111,7 +111,15 @@ def facts_at(prog: Program, func: FuncInfo, node, canon_fn):
             for c in _split_and(n):
                 facts.append(c)
     cur = node
+    prev = node
     for p in parents(node):
+        if isinstance(p, ast.BoolOp):
+            # short-circuit: operands to the left hold (and) / do not hold (or) when this one is evaluated
+            idx = next((i for i, v in enumerate(p.values) if v is prev), None)
+            if idx:
+                for v in p.values[:idx]:
+                    add(v, isinstance(p.op, ast.And))
+        prev = p
         if isinstance(p, ast.If):
             if any(cur is b or cur in list(ast.walk(b)) for b in p.body) and not (cur is p.test or cur in list(ast.walk(p.test))):
                 add(p.test, True)
@@ -217,3 +225,19 @@ def modifier_effect(prog: Program, meth: FuncInfo):
     if not isinstance(st, ast.Assign):
         return ("bad", "augmented store")
     return ("ok", tgt.attr, ast.unparse(st.value))
+
+
+def construction_helpers(prog: Program, cls):
+    """Names of private methods of cls that run only as part of construction: every call site
+    `<x>.<name>(...)` in the package lies in an `__init__` of the class hierarchy (on `self`)."""
+    out = set()
+    for k in cls.mro:
+        for name, m in k.methods.items():
+            if not name.startswith("_") or name.startswith("__") or m.kind != "method":
+                continue
+            sites = [(g, n) for g in prog.all_functions() for n in ast.walk(g.node)
+                     if isinstance(n, ast.Call) and isinstance(n.func, ast.Attribute) and n.func.attr == name]
+            if sites and all(g.name == "__init__" and g.cls is not None and (g.cls in cls.mro or cls in g.cls.mro)
+                             and isinstance(n.func.value, ast.Name) and n.func.value.id == "self" for g, n in sites):
+                out.add(name)
+    return out
